@@ -342,3 +342,156 @@ pub fn enforce_gap3(pts: &[P3], gap: f64) -> Vec<P3> {
     }
     out
 }
+
+// ---------------------------------------------------------------------------------------------
+// curve specifications (shared by C01..C06, C02, C03, C16)
+
+use crate::oracle::{Poly, Pt};
+
+#[derive(Clone, Copy, Debug, Serialize, Deserialize, PartialEq)]
+pub enum CloseMode {
+    Open,
+    ClosedExact,
+    ClosedNear,
+    ForceOpenInput,
+    ForceClosedInput,
+}
+
+#[derive(Clone, Debug, Serialize, Deserialize)]
+pub struct Curve2Spec {
+    pub pts: Vec<P2>,
+    pub tol: f64,
+    pub mode: CloseMode,
+    /// (position, exact?) duplicates injected into the input to exercise de-duplication
+    #[serde(default)]
+    pub dups: Vec<(u16, bool)>,
+}
+
+pub struct Built2 {
+    pub curve: engeom::Curve2,
+    /// the vertices the harness expects the library to have stored
+    pub expected: Vec<Pt<2>>,
+    pub closed: bool,
+    pub model: Poly<2>,
+    pub input: Vec<Pt<2>>,
+    pub force: bool,
+    pub mode_used: CloseMode,
+}
+
+impl Curve2Spec {
+    /// harness-side construction of the input and of the expected stored vertices
+    pub fn plan(&self) -> Option<(Vec<Pt<2>>, Vec<Pt<2>>, bool, bool, CloseMode)> {
+        let tol = self.tol;
+        let mut pts = enforce_gap2(&self.pts, 4.0 * tol);
+        let d = |a: &P2, b: &P2| ((a[0] - b[0]).powi(2) + (a[1] - b[1]).powi(2)).sqrt();
+        while pts.len() >= 2 && d(&pts[0], pts.last().unwrap()) <= 4.0 * tol {
+            pts.pop();
+        }
+        if pts.len() < 2 {
+            return None;
+        }
+        let mode = if pts.len() < 3 { CloseMode::Open } else { self.mode };
+        let first = pts[0];
+        let mut expected = pts.clone();
+        let mut input = pts.clone();
+        let (force, closed) = match mode {
+            CloseMode::Open => (false, false),
+            CloseMode::ClosedExact => {
+                input.push(first);
+                expected.push(first);
+                (false, true)
+            }
+            CloseMode::ClosedNear => {
+                let q = [first[0] + tol / 2.0, first[1]];
+                input.push(q);
+                expected.push(q);
+                (false, true)
+            }
+            CloseMode::ForceOpenInput => {
+                expected.push(first);
+                (true, true)
+            }
+            CloseMode::ForceClosedInput => {
+                input.push(first);
+                expected.push(first);
+                (true, true)
+            }
+        };
+        // inject duplicates into the input only (processed from the back so indices stay valid)
+        let mut ins: Vec<(usize, bool)> = self.dups.iter().map(|(i, e)| (crate::fw::idx(*i, input.len()), *e)).collect();
+        ins.sort();
+        ins.dedup_by_key(|x| x.0);
+        for (i, exact) in ins.into_iter().rev() {
+            let p = input[i];
+            let q = if exact { p } else { [p[0] + tol / 3.0, p[1]] };
+            input.insert(i + 1, q);
+        }
+        Some((crate::oracle::to_p2(&input), crate::oracle::to_p2(&expected), force, closed, mode))
+    }
+
+    pub fn build(&self) -> Result<Option<Built2>, String> {
+        let Some((input, expected, force, closed, mode_used)) = self.plan() else { return Ok(None) };
+        let curve = engeom::Curve2::from_points(&input, self.tol, force).map_err(|e| format!("Curve2::from_points failed: {e}"))?;
+        let model = Poly::new(expected.clone());
+        Ok(Some(Built2 { curve, expected, closed, model, input, force, mode_used }))
+    }
+}
+
+pub fn close_mode() -> BoxedStrategy<CloseMode> {
+    prop::sample::select(vec![CloseMode::Open, CloseMode::Open, CloseMode::ClosedExact, CloseMode::ClosedNear, CloseMode::ForceOpenInput, CloseMode::ForceClosedInput]).boxed()
+}
+
+/// curve spec with scale log-uniform in 10^[lo,hi]
+pub fn curve2_spec(nmin: usize, nmax: usize, lo: f64, hi: f64, with_dups: bool) -> BoxedStrategy<Curve2Spec> {
+    (unif(lo, hi), prop::sample::select(vec![1e-9, 1e-6, 1e-4]), close_mode(), prop::collection::vec((any::<u16>(), any::<bool>()), 0..4))
+        .prop_flat_map(move |(e, trel, mode, dups)| {
+            let scale = 10f64.powf(e);
+            polyline2(nmin, nmax, scale).prop_map(move |(_, pts)| Curve2Spec { pts, tol: trel * scale, mode, dups: if with_dups { dups.clone() } else { vec![] } })
+        })
+        .boxed()
+}
+
+#[derive(Clone, Debug, Serialize, Deserialize)]
+pub struct Curve3Spec {
+    pub pts: Vec<P3>,
+    pub tol: f64,
+    #[serde(default)]
+    pub dups: Vec<(u16, bool)>,
+}
+
+pub struct Built3 {
+    pub curve: engeom::Curve3,
+    pub expected: Vec<Pt<3>>,
+    pub model: Poly<3>,
+}
+
+impl Curve3Spec {
+    pub fn build(&self) -> Result<Option<Built3>, String> {
+        let tol = self.tol;
+        let pts = enforce_gap3(&self.pts, 4.0 * tol);
+        if pts.len() < 2 {
+            return Ok(None);
+        }
+        let mut input = pts.clone();
+        let mut ins: Vec<(usize, bool)> = self.dups.iter().map(|(i, e)| (crate::fw::idx(*i, input.len()), *e)).collect();
+        ins.sort();
+        ins.dedup_by_key(|x| x.0);
+        for (i, exact) in ins.into_iter().rev() {
+            let p = input[i];
+            let q = if exact { p } else { [p[0] + tol / 3.0, p[1], p[2]] };
+            input.insert(i + 1, q);
+        }
+        let expected = crate::oracle::to_p3(&pts);
+        let curve = engeom::Curve3::from_points(&crate::oracle::to_p3(&input), tol).map_err(|e| format!("Curve3::from_points failed: {e}"))?;
+        Ok(Some(Built3 { curve, model: Poly::new(expected.clone()), expected }))
+    }
+}
+
+pub fn curve3_spec(nmin: usize, nmax: usize, lo: f64, hi: f64, with_dups: bool) -> BoxedStrategy<Curve3Spec> {
+    (unif(lo, hi), prop::sample::select(vec![1e-9, 1e-6, 1e-4]), prop::collection::vec((any::<u16>(), any::<bool>()), 0..4))
+        .prop_flat_map(move |(e, trel, dups)| {
+            let scale = 10f64.powf(e);
+            polyline3(nmin, nmax, scale).prop_map(move |(_, pts)| Curve3Spec { pts, tol: trel * scale, dups: if with_dups { dups.clone() } else { vec![] } })
+        })
+        .boxed()
+}
